@@ -381,7 +381,7 @@ func TestC11(t *testing.T) {
 // ---- RunTraceroute: the 3 runs + N e2e probes a single request starts ----
 
 func TestC11Request(t *testing.T) {
-	rec := NewRecorder("C11", "C11Request", "rapid: one RunTraceroute request (1..4 runs + 0..6 e2e probes, udp/icmp/tcp) over per-flow worlds; oracle: every returned run equals the scripted result of a distinct full-range flow")
+	rec := NewRecorder("C11", "C11Request", "rapid: one RunTraceroute request (1..4 runs + 0..6 e2e probes, udp/icmp/tcp) over per-flow worlds; a third of the cases two or three such requests at once, each through a Traceroute object made by the plain constructor at that moment; oracle: every returned run equals the scripted result of a distinct full-range flow")
 	RunProp(t, rec, func(rt *rapid.T) *Request {
 		rq := &Request{}
 		rq.P = ReqParams{Hostname: "93.184.216.34", Port: 443, Protocol: oneOf(rt, "proto", "udp", "icmp", "tcp"), MinTTL: 1, MaxTTL: rapid.IntRange(2, 7).Draw(rt, "max"),
@@ -399,9 +399,27 @@ func TestC11Request(t *testing.T) {
 		}
 		rq.EchoBase = oneOf(rt, "echo_base", uint32(0), 0xfffd)
 		rq.PktIDBase = oneOf(rt, "pktid_base", uint32(0), 0xfff8)
+		// a third of the cases: two or three such requests at once, each through a Traceroute object of its own
+		// (what the constructor does must not disturb runs that are in flight)
+		if oneOf(rt, "several_apps", false, false, true) {
+			rq.Concurrent = rapid.IntRange(2, 3).Draw(rt, "n_apps")
+			rq.OwnObjects = true
+			rq.P.Queries = rapid.IntRange(1, 2).Draw(rt, "q_apps")
+			rq.P.E2e = rapid.IntRange(0, 2).Draw(rt, "e2e_apps")
+		}
 		return rq
 	}, func(t *testing.T, rq *Request, rec *Recorder) []Diff {
 		o := RunRequest(t, rq)
+		if o.Res != nil && len(o.AllRes) > 1 {
+			// judge all requests as one: every run of every request is a flow of its own
+			all := &result.Results{}
+			for _, r := range o.AllRes {
+				if r != nil {
+					all.Traceroute.Runs = append(all.Traceroute.Runs, r.Traceroute.Runs...)
+				}
+			}
+			o.Res = all
+		}
 		if o.Panic != "" || o.Deadlock != "" || o.Err != nil || o.Res == nil {
 			rec.Case(scenarioKey(rq), false, nil, "other:failed")
 			return append(worldProblems(o.World, "C11"), Diff{"C09", "run-error", fmt.Sprintf("%v %s %s", o.Err, o.Panic, o.Deadlock)})
